@@ -56,7 +56,7 @@ def main():
                 "needs_to_manifest": meta.get("needs_to_manifest"),
                 "files": meta.get("files"),
                 "written_by": "independent sub-agent given only the property text and its own worktree of /repo (commit c4a3b28)" + (
-                    "; later rounds: also given one-line summaries of the earlier changes, to be avoided, and a hint at the kind of trigger wanted (size thresholds above 4 entries in round 3; small in-place edits in round 4)" if prefix else ""),
+                    "; later rounds: also given one-line summaries of the earlier changes, to be avoided, and a hint at the kind of trigger wanted (size thresholds above 4 entries in round 3; small in-place edits in round 4; round 5: functions and mechanisms not used by earlier changes)" if prefix else ""),
                 "author_ran": meta.get("ran") or meta.get("author_ran"),
                 "confirmed_here": {
                     "how": "lib/seedtest.py confirm: patched scratch copy of /repo: cargo test --offline --workspace (131 lib tests + doc tests green); "
